@@ -165,32 +165,37 @@ def null_lines(lines, meta, rng):
     vals = ", ".join("(" + ", ".join("NULL" if v is None else (sq(v) if isinstance(v, str) else str(v)) for v in r) + ")" for r in rows)
     setup = [{"sql": "CREATE TEMP TABLE args (s TEXT, n INT, p TEXT, m INT)"}, {"sql": f"INSERT INTO args VALUES {vals}"}]
     const = {"s": ("'ab'", "ab"), "n": ("2", 2), "p": ("'*'", "*"), "m": ("2", 2)}
-    steps, plan = list(setup), []
-    for f, tmpl, slots in NULLFNS:
+    cases, plans = [], []
+    for f, tmpl, slots in NULLFNS:          # one session per function: a hang or crash of one function costs only its own lines
+        steps, plan = list(setup), []
         for mask in range(1, 2 ** len(slots)):          # bit set = argument comes from the column; at least one column
             use = {sl: bool(mask >> i & 1) for i, sl in enumerate(slots)}
             args = {sl: (sl if use.get(sl) else const[sl][0]) for sl in "snpm"}
             steps.append({"sql": "SELECT s, n, p, m, " + tmpl.format(**args) + " FROM args"})
             plan.append((f, slots, use))
-    case = {"id": 0, "rt": {"kind": "threaded", "threads": 2}, "steps": steps, "timeout": 120}
-    res = vlib.Driver(nworkers=1, case_timeout=120).run([case])[0]
-    for k, (f, slots, use) in enumerate(plan):
-        st = res["steps"][len(setup) + k] if res and "steps" in res else [{"outcome": "abort" if (res or {}).get("abort") else "timeout"}]
-        o = st[-1]
+        cases.append({"id": len(cases), "rt": {"kind": "threaded", "threads": 2}, "steps": steps, "timeout": 60})
+        plans.append(plan)
+    results = vlib.Driver(nworkers=6, case_timeout=60).run(cases)
+    flat = []
+    for case, res, plan in zip(cases, results, plans):
+        for k, (f, slots, use) in enumerate(plan):
+            st = res["steps"][len(setup) + k] if res and "steps" in res else [{"outcome": "abort" if (res or {}).get("abort") else "timeout"}]
+            flat.append((f, slots, use, st[-1], case["steps"][len(setup) + k]["sql"]))
+    for (f, slots, use, o, sqltext) in flat:
         got = o["rows"] if o.get("outcome") == "rows" else [None]
         for row in got:
             lid = len(lines)
             if row is None:
                 lines.append({"id": lid, "kind": "fn", "s": [], "p": [], "f": f, "n": 0, "m": 0, "an": [],
                               "out": {"k": "err" if o.get("outcome") == "error" else o.get("outcome"), "v": []}})
-                meta[lid] = {"fn": f, "sql": steps[len(setup) + k]["sql"], "ctx": "null-mix", "msg": (o.get("msg") or "")[:200]}
+                meta[lid] = {"fn": f, "sql": sqltext, "ctx": "null-mix", "msg": (o.get("msg") or "")[:200]}
                 continue
             a = {"s": row[0] if use.get("s") else const["s"][1], "n": row[1] if use.get("n") else const["n"][1],
                  "p": row[2] if use.get("p") else const["p"][1], "m": row[3] if use.get("m") else const["m"][1]}
             an = [1 if a[sl] is None else 0 for sl in slots]
             lines.append({"id": lid, "kind": "fn", "s": cps(a["s"] or ""), "p": cps(a["p"] or ""), "f": f, "n": a["n"] or 0, "m": a["m"] or 0,
                           "an": an, "out": outrec(row[4], "fn")})
-            meta[lid] = {"fn": f, "sql": steps[len(setup) + k]["sql"], "ctx": "null-mix:" + "".join(sl if use.get(sl) else "_" for sl in slots),
+            meta[lid] = {"fn": f, "sql": sqltext, "ctx": "null-mix:" + "".join(sl if use.get(sl) else "_" for sl in slots),
                          "args": a, "msg": ""}
 
 
